@@ -209,9 +209,11 @@ fn trace_one(case: &Case, expected_sig: &str, presented: &str, mode: Mode, log_t
         // let the child finish
         libc::ptrace(libc::PTRACE_CONT, pid, 0, 0);
         let mut exit_ok = false;
+        let mut exit_code = 0u64;
         if libc::waitpid(pid, &mut status, 0) == pid && libc::WIFEXITED(status) {
             let c = libc::WEXITSTATUS(status);
             exit_ok = c == 10 || c == 11;
+            exit_code = c as u64;
         } else {
             libc::kill(pid, libc::SIGKILL);
             libc::waitpid(pid, &mut status, 0);
@@ -220,7 +222,7 @@ fn trace_one(case: &Case, expected_sig: &str, presented: &str, mode: Mode, log_t
             steps,
             hash,
             ok: if ok == 1 && exit_ok {
-                1
+                exit_code
             } else {
                 0
             },
@@ -261,23 +263,38 @@ struct Req {
     logical: sv::gen::Logical,
     cfg: sv::model::Cfg,
     sig: String,
+    script: sv::model::Script,
 }
 
 fn make_requests(seed: u64, n: usize) -> Vec<Req> {
-    let shapes: [(&str, Carrier, bool, usize); 4] = [("header carrier", Carrier::Header, false, 0), ("query carrier", Carrier::Query, false, 0), ("header carrier with token", Carrier::Header, true, 0), ("header carrier, 1 KiB body", Carrier::Header, false, 1024)];
+    // (label, carrier, session token, body bytes, S3 mode, form folding, form body)
+    let shapes: [(&str, Carrier, bool, usize, bool, bool, bool); 8] = [
+        ("header carrier", Carrier::Header, false, 0, false, false, false),
+        ("query carrier with token", Carrier::Query, true, 0, false, false, false),
+        ("header carrier with token, S3 mode", Carrier::Header, true, 0, true, false, false),
+        ("query carrier, folded form POST", Carrier::Query, false, 0, false, true, true),
+        ("header carrier, 1 KiB body", Carrier::Header, false, 1024, false, false, false),
+        ("header carrier, S3 mode + folded form POST", Carrier::Header, false, 0, true, true, true),
+        ("query carrier with token, service with signed-header requirements", Carrier::Query, true, 0, false, true, false),
+        ("header carrier with token, service with signed-header requirements", Carrier::Header, true, 0, false, false, false),
+    ];
     let mut v = Vec::new();
     for k in 0..n {
-        let (label, carrier, token, body) = shapes[k % 4];
+        let (label, carrier, token, body, s3, fold, form) = shapes[k % 8];
         let mut r = Rng::keyed(seed, "C07", "request", k as u64, 0);
         let mut cfg = gen_cfg(&mut r);
-        cfg.s3 = false;
-        cfg.fold = false;
+        cfg.s3 = s3;
+        cfg.fold = fold;
+        if k % 8 >= 6 {
+            cfg.reqs = sv::props::c05::gen_reqs(&mut r).0;
+        }
         let o = GenOpts {
             carrier: Some(carrier),
             token: Some(token),
             allow_form: false,
             max_pairs: 2,
             max_extra_headers: 2,
+            other_carrier_decoys: false,
             ..Default::default()
         };
         let mut l = gen_logical(&mut r, &cfg, &o);
@@ -285,10 +302,26 @@ fn make_requests(seed: u64, n: usize) -> Vec<Req> {
             l.body = r.bytes(body);
             l.content_type = Some(b"application/octet-stream".to_vec());
         }
+        if form {
+            l.method = "POST".into();
+            l.body.clear();
+            l.form_pairs = Some(vec![(b"Action".to_vec(), b"ListUsers".to_vec()), (b"Version".to_vec(), b"2010-05-08".to_vec())]);
+            l.content_type = Some(b"application/x-www-form-urlencoded".to_vec());
+        }
+        if token {
+            // temporary credentials
+            l.access_key = format!("ASIA{}", &l.access_key[4..]);
+        }
         let present = sv::gen::present_header_names(&l);
         l.signed.retain(|s| present.contains(s));
+        for n in sv::gen::required_signed(&l, &cfg) {
+            if !l.signed.contains(&n) {
+                l.signed.push(n);
+            }
+        }
+        l.signed.sort();
         // second key for the same request shape
-        if k >= 4 {
+        if k >= 8 {
             l.secret = format!("{}Z", &l.secret[..l.secret.len().min(39)]);
         }
         let mut sr = Rng::keyed(seed, "C07", "spell", k as u64, 0);
@@ -296,12 +329,23 @@ fn make_requests(seed: u64, n: usize) -> Vec<Req> {
             r: &mut sr,
             level: 0,
         };
-        let (case, facts) = make_case(&l, &cfg, &mut sp, &Overrides::default(), 0);
+        // odd requests: the server clock is not the request's instant, the provider hands out a richer identity
+        let delta: i128 = if k % 2 == 1 {
+            300_000_000_000
+        } else {
+            0
+        };
+        let (case, facts) = make_case(&l, &cfg, &mut sp, &Overrides::default(), delta);
+        let mut script = sv::model::Script::derive(&l.secret);
+        if k % 2 == 1 {
+            sv::props::c15::gen_identity(&mut r, &mut script);
+        }
         v.push(Req {
-            label: format!("{} (key {})", label, k / 4),
+            label: format!("{} (key {})", label, k / 8),
             logical: l,
             cfg: case.cfg.clone(),
             sig: facts.sig,
+            script,
         });
     }
     v
@@ -321,13 +365,27 @@ fn case_with_sig(req: &Req, seed: u64, k: usize, presented: &str) -> Case {
     Case {
         wire,
         cfg: req.cfg.clone(),
-        script: sv::model::Script::derive(&req.logical.secret),
+        script: req.script.clone(),
     }
 }
 
-fn make_probes(seed: u64, reqs: &[Req], positions: &[usize], multi: usize) -> Vec<Probe> {
+/// Requests with index < `full_upto` get the full set, every further request the plain group at positions 0 / 31 / 63 (plus
+/// all-wrong and the controls) — other carriers, options and identities at little cost.
+fn make_probes_reduced(seed: u64, reqs: &[Req], positions_full: &[usize], multi_full: usize, full_upto: usize) -> Vec<Probe> {
     let mut v = Vec::new();
     for (k, q) in reqs.iter().enumerate() {
+        let thin = k >= full_upto;
+        let thin_positions = [0usize, 31, 63];
+        let positions: &[usize] = if thin {
+            &thin_positions
+        } else {
+            positions_full
+        };
+        let multi = if thin {
+            0
+        } else {
+            multi_full
+        };
         let mut r = Rng::keyed(seed, "C07", "probes", k as u64, 0);
         for &p in positions {
             let mut s = q.sig.clone().into_bytes();
@@ -416,7 +474,7 @@ fn make_probes(seed: u64, reqs: &[Req], positions: &[usize], multi: usize) -> Ve
         // evaluate their arguments, and that work must be position-independent as well
         let twins: Vec<Probe> = v
             .iter()
-            .filter(|p| p.request == k && p.mode == Mode::Validate && (p.label.starts_with("wrong-at-") || p.label == "all-wrong"))
+            .filter(|p| !thin && p.request == k && p.mode == Mode::Validate && (p.label.starts_with("wrong-at-") || p.label == "all-wrong"))
             .map(|p| Probe {
                 label: format!("{}+trace-logging", p.label),
                 log_trace: true,
@@ -429,7 +487,7 @@ fn make_probes(seed: u64, reqs: &[Req], positions: &[usize], multi: usize) -> Ve
         // far from the probed position (a verifier that is lenient about hex case must still not compare early-exit)
         let spell: Vec<Probe> = v
             .iter()
-            .filter(|p| p.request == k && p.mode == Mode::Validate && p.group == "lower" && p.label.starts_with("wrong-at-"))
+            .filter(|p| !thin && p.request == k && p.mode == Mode::Validate && p.group == "lower" && p.label.starts_with("wrong-at-"))
             .flat_map(|p| {
                 let upper = p.presented.to_ascii_uppercase();
                 let mut one = p.presented.clone().into_bytes();
@@ -545,12 +603,26 @@ fn analyse(reqs: &[Req], probes: &[Probe], traces: &[Trace], profile: &str) -> S
     let mut controls_ok = true;
     for (k, q) in reqs.iter().enumerate() {
         let mine: Vec<usize> = (0..probes.len()).filter(|i| probes[*i].request == k).collect();
-        let failed: Vec<&str> = mine.iter().filter(|i| traces[**i].ok != 1).map(|i| probes[*i].label.as_str()).collect();
+        let failed: Vec<&str> = mine.iter().filter(|i| traces[**i].ok != 10 && traces[**i].ok != 11).map(|i| probes[*i].label.as_str()).collect();
         if !failed.is_empty() {
             t.inconclusive.push(format!("[{}] request {}: {} trace(s) did not complete ({:?}) — ptrace unavailable or child failed", profile, q.label, failed.len(), &failed[..failed.len().min(3)]));
             controls_ok = false;
             continue;
         }
+        // what was traced must be what the property is about: every wrong signature refused (exit 11), the correct one
+        // accepted (exit 10) — otherwise the comparison was never reached and identical traces would mean nothing
+        let unexpected: Vec<String> = mine
+            .iter()
+            .filter(|i| probes[**i].mode == Mode::Validate)
+            .filter(|i| traces[**i].ok != if probes[**i].first_wrong < 64 { 11 } else { 10 })
+            .map(|i| format!("{} → {}", probes[*i].label, if traces[*i].ok == 10 { "accepted" } else { "refused" }))
+            .collect();
+        if !unexpected.is_empty() {
+            t.inconclusive.push(format!("[{}] request {}: {} probe(s) did not end the way their signature demands ({:?}) — the traced shape does not exercise the comparison", profile, q.label, unexpected.len(), &unexpected[..unexpected.len().min(3)]));
+            controls_ok = false;
+            continue;
+        }
+        t.count("requests_whose_probes_ended_as_their_signature_demands");
         t.evaluations += mine.len() as u64;
         // sensitivity control: harness-local `==` must be position-dependent
         let ctl: Vec<&usize> = mine.iter().filter(|i| probes[**i].mode == Mode::ControlCompare).collect();
@@ -609,7 +681,8 @@ fn analyse(reqs: &[Req], probes: &[Probe], traces: &[Trace], profile: &str) -> S
         if let Some(c) = mine.iter().find(|i| probes[**i].label == "correct") {
             t.count("success_path_traced");
             if traces[*c] == base {
-                t.notes.push(format!("[{}] note: the success path has the same trace as a refusal for {}", profile, q.label));
+                t.inconclusive.push(format!("[{}] the success path has the same trace as a refusal for {}: the tracer cannot tell outcomes apart", profile, q.label));
+                controls_ok = false;
             }
         }
         t.sample(6, || {
@@ -656,17 +729,21 @@ fn main() {
         let seed: u64 = args.get(2).and_then(|s| s.parse().ok()).unwrap_or(1);
         let profile = args.get(3).cloned().unwrap_or_else(|| "other".into());
         let light = args.get(4).map(|s| s == "light").unwrap_or(false);
-        let reqs = make_requests(seed, 1);
+        // two shapes: header carrier; query carrier with a session token, a richer identity and a skewed server clock
+        let reqs = make_requests(seed, 2);
         let mut probes = if light {
-            make_probes(seed, &reqs, &[0, 1, 31, 32, 63], 3)
+            make_probes_reduced(seed, &reqs, &[0, 1, 31, 32, 63], 3, 1)
         } else {
-            make_probes(seed, &reqs, &[0, 1, 15, 31, 32, 47, 62, 63], 2)
+            make_probes_reduced(seed, &reqs, &[0, 1, 15, 31, 32, 47, 62, 63], 2, 1)
         };
         if light {
-            // unoptimised builds take ~10× the steps: keep the plain group and the controls
-            probes.retain(|p| p.group == "lower" && !p.log_trace);
+            // unoptimised builds take ~10× the steps: keep the plain group and the controls, and a thin slice of the logging
+            // and upper-case groups (positions 0 and 63) — a branch that only exists with a logger installed, or only for
+            // upper-case input, stays a branch at opt-level 0
+            probes.retain(|p| (p.group == "lower" && !p.log_trace) || (p.request == 0 && (p.label.starts_with("wrong-at-0+") || p.label.starts_with("wrong-at-63+"))));
         }
-        let traces = trace_all(seed, &reqs, &probes, 16);
+        let workers = probes.len().clamp(8, 26);
+        let traces = trace_all(seed, &reqs, &probes, workers);
         let s = analyse(&reqs, &probes, &traces, &profile);
         println!(
             "RAW profile={} compared={} identical_requests={} violations={} inconclusive={} controls_ok={}",
@@ -691,12 +768,14 @@ fn main() {
     };
     let mut ctx = Ctx::new("C07", tier);
     let seed = ctx.seed;
-    let (nreq, positions, multi): (usize, Vec<usize>, usize) = match tier {
-        Tier::Quick => (1, vec![0, 1, 2, 15, 31, 32, 47, 62, 63], 2),
-        Tier::Thorough => (12, (0..64).collect(), 16),
+    // quick: four request shapes (both carriers, token, S3, folded form), the first with the full probe set; thorough: all
+    // eight shapes under two keys, the first eight with every position
+    let (nreq, positions, multi, full_upto): (usize, Vec<usize>, usize, usize) = match tier {
+        Tier::Quick => (4, vec![0, 1, 2, 15, 31, 32, 47, 62, 63], 2, 1),
+        Tier::Thorough => (16, (0..64).collect(), 16, 8),
     };
     let reqs = make_requests(seed, nreq);
-    let probes = make_probes(seed, &reqs, &positions, multi);
+    let probes = make_probes_reduced(seed, &reqs, &positions, multi, full_upto);
     let traces = trace_all(seed, &reqs, &probes, ctx.threads.max(1));
     let s = analyse(&reqs, &probes, &traces, "release");
     let mut tally = s.tally;
@@ -726,6 +805,34 @@ fn main() {
             }
             Err(e) => tally.inconclusive.push(format!("checked-profile tracer could not run: {}", e)),
         }
+    }
+    // thorough: the same subset on a build of the crate *without* its `unstable` feature — what callers ship (code gated on
+    // that feature could differ)
+    if let Ok(other) = std::env::var("VERIF_C07_NODEFAULT") {
+        match std::process::Command::new(&other).args(["raw", &seed.to_string(), "default-features-of-the-crate"]).output() {
+            Ok(o) => {
+                let out = String::from_utf8_lossy(&o.stdout).to_string();
+                extra.put("crate_default_features_build", J::s(out.lines().find(|l| l.starts_with("RAW ")).unwrap_or("").to_string()));
+                for l in out.lines() {
+                    if let Some(d) = l.strip_prefix("RAWVIOLATION ") {
+                        tally.violate(Violation {
+                            monitor: "instruction-trace".into(),
+                            signature: "instruction-trace|crate-default-features".into(),
+                            detail: d.to_string(),
+                            case: None,
+                            extra: J::Null,
+                            known: None,
+                        });
+                    } else if let Some(d) = l.strip_prefix("RAWINCONCLUSIVE ") {
+                        tally.inconclusive.push(format!("build without the crate's unstable feature: {}", d));
+                    } else if l.starts_with("RAW ") && l.contains("violations=0") && l.contains("controls_ok=true") {
+                        tally.count("crate_default_features_subset_identical");
+                    }
+                }
+            }
+            Err(e) => tally.inconclusive.push(format!("tracer built without the crate's unstable feature could not run: {}", e)),
+        }
+        ctx.gate("subset repeated on a build of the crate without its unstable feature", tally.get("crate_default_features_subset_identical"), 1);
     }
     // every run: repeat the plain group on an unoptimised build, where a branch in the source stays a branch
     if let Ok(other) = std::env::var("VERIF_C07_UNOPT") {
@@ -765,12 +872,15 @@ fn main() {
             Err(e) => tally.inconclusive.push(format!("unoptimised-profile tracer could not run: {}", e)),
         }
         ctx.gate("plain probe group repeated on the unoptimised build profile, all refusal traces identical", tally.get("unoptimised_profile_subset_identical"), 1);
-        ctx.gate("wrong-signature traces compared on the unoptimised build", tally.get("unoptimised_profile_traces_compared"), 8);
+        ctx.gate("wrong-signature traces compared on the unoptimised build", tally.get("unoptimised_profile_traces_compared"), 12);
     }
     ctx.gate("requests whose refusal traces were all identical", tally.get("requests_with_identical_refusal_traces"), nreq as u64);
-    ctx.gate("wrong-signature traces compared", tally.get("wrong_signature_traces_compared"), (nreq * (positions.len() + 1 + multi)) as u64);
-    ctx.gate("wrong-signature traces compared in upper case / with one upper-case letter", tally.get("wrong_signature_traces_compared_in_other_hex_case"), (nreq * positions.len() * 2) as u64);
-    ctx.gate("wrong-signature traces compared with a trace-level logger installed", tally.get("wrong_signature_traces_compared_with_trace_logging"), (nreq * (positions.len() + 1)) as u64);
+    let full = full_upto.min(nreq);
+    let thin = nreq - full;
+    ctx.gate("wrong-signature traces compared", tally.get("wrong_signature_traces_compared"), (full * (positions.len() + 1 + multi) + thin * 4) as u64);
+    ctx.gate("wrong-signature traces compared in upper case / with one upper-case letter", tally.get("wrong_signature_traces_compared_in_other_hex_case"), (full * positions.len() * 2) as u64);
+    ctx.gate("wrong-signature traces compared with a trace-level logger installed", tally.get("wrong_signature_traces_compared_with_trace_logging"), (full * (positions.len() + 1)) as u64);
+    ctx.gate("requests whose wrong-signature probes were all refused and whose correct signature was accepted", tally.get("requests_whose_probes_ended_as_their_signature_demands"), nreq as u64);
     ctx.gate("sensitivity control (early-exit compare is position-dependent under the memcmp override)", tally.get("control_early_exit_compare_is_position_dependent"), nreq as u64);
     ctx.gate("determinism control (same probe, same trace)", tally.get("control_same_probe_same_trace"), nreq as u64);
     if tier == Tier::Thorough && std::env::var("VERIF_C07_EXTRA").is_ok() {
@@ -779,7 +889,7 @@ fn main() {
     ctx.exhaustive("first-difference positions 0–63 for each traced request", tier == Tier::Thorough);
     let rep = Report {
         level: "exploration",
-        rule: "Instruction-trace monitor: the process warms all lazily initialised globals, then forks one child per probe; the child builds its request, raises SIGSTOP, performs the single validation call, raises SIGSTOP again; the parent single-steps the child between the two stops with ptrace and folds every instruction address into (step count, 64-bit FNV hash). All children are forks of one warmed single-threaded parent (same layout, allocator state, hash seeds); probes differ only in the signature text: first wrong character at each probed position (digit for digit, letter for letter), all characters wrong, random multi-position variants; every position probe is repeated with a trace-level logger installed (log-macro arguments are then evaluated), with the whole signature in upper case, and with one far-away letter in upper case. Verdict: identical (count, hash) for all refusals of one request within each of these four groups. The plain group (5 positions, all-wrong, 3 multi-position variants) is traced again on an unoptimised build of crate and harness (profile `unopt`, opt-level 0; ≈ 770 000 steps per trace), where a data-dependent branch in the source cannot be turned into branch-free code by the optimiser; thorough also repeats a subset on the `checked` profile. Controls: same probe twice ⇒ same trace; a harness-local `==` over the same inputs must show position-dependent lengths (proves the byte-wise memcmp/bcmp override is effective). Distinct = distinct (request, wrong signature) traces compared.".into(),
+        rule: "Instruction-trace monitor: the process warms all lazily initialised globals, then forks one child per probe; the child builds its request, raises SIGSTOP, performs the single validation call, raises SIGSTOP again; the parent single-steps the child between the two stops with ptrace and folds every instruction address into (step count, 64-bit FNV hash). All children are forks of one warmed single-threaded parent (same layout, allocator state, hash seeds); request shapes: both carriers, with and without a session token (temporary-credential access keys), S3 mode, folded form POST, both options, services with signed-header requirements, a skewed server clock and a richer provider identity on every other request, two keys; probes differ only in the signature text: first wrong character at each probed position (digit for digit, letter for letter), all characters wrong, random multi-position variants; every position probe is repeated with a trace-level logger installed (log-macro arguments are then evaluated), with the whole signature in upper case, and with one far-away letter in upper case. Verdict: identical (count, hash) for all refusals of one request within each of these four groups. The plain group (5 positions, all-wrong, 3 multi-position variants) is traced again on an unoptimised build of crate and harness (profile `unopt`, opt-level 0; ≈ 770 000 steps per trace), where a data-dependent branch in the source cannot be turned into branch-free code by the optimiser; thorough also repeats a subset on the `checked` profile. Every wrong-signature probe must end refused and the correct signature accepted (child exit status), else the run is inconclusive. Controls: same probe twice ⇒ same trace; a harness-local `==` over the same inputs must show position-dependent lengths (proves the byte-wise memcmp/bcmp override is effective). Distinct = distinct (request, wrong signature) traces compared.".into(),
         assumptions: vec![
             "decides the property as stated (instruction sequence), not micro-architectural timing".into(),
             "the success path (correct signature) is traced but excluded from the comparison".into(),
